@@ -139,6 +139,7 @@ package foreach
 //@   opt goroutine item
 //@   opt token wg
 //@   requires wfstep(r) && nolocks() && sem != nil && !closed(sem) && wg != nil && itemErrors != nil && allocated(itemErrors) && allocated(itemOutputs) && 0 <= i && i < len(itemOutputs) && chcap(sem) >= 1
+//@   shared itemErrors, itemOutputs guarded_by r.lock
 //@   site call Execute#1 assert [runs-only-with-a-parallelism-permit] sentnow(sem)
 //@   site call Execute#1 assert [runs-with-its-own-item] true
 //@   ensures [item-given-to-the-subworkflow] called(Execute, 1) ==> callarg(Execute, 1, 1) == input
